@@ -956,7 +956,8 @@ pub fn oracle_c06_c07(w: &World, so: &StepObs, out: &mut StepOut, do6: bool, do7
                     let exp = pp.size.value.u128() * cfg.plr / du();
                     let dec = pp.size.value.u128() as i128 - p1.size.value.u128() as i128;
                     let flipped = (size_of(pp) > 0) != (size_of(p1) > 0) && !p1.size.is_zero();
-                    if dec != exp as i128 || flipped || dec <= 0 {
+                    // a slice that rounds to zero base units (dust) is still "exactly the configured fraction"; growth is not
+                    if dec != exp as i128 || flipped || dec < 0 {
                         out.viol(
                             if slice_worth_more_than_notional(w, so) { "C06:partial-liquidation-size:slice-worth-more-than-open-notional" } else { "C06:partial-liquidation-size" },
                             format!("size {} -> {} expected decrease {} in {:?}", pp.size, p1.size, exp, so.act),
